@@ -125,10 +125,7 @@ func checkC06(w *World, r *Report) {
 		"standard-library functions are not descended into; only direct calls from module code to blocking primitives are considered",
 		"no reflection/unsafe/linkname call targets (checked: none in the module)",
 	}
-	router := w.FoxType("Router")
-	muField := w.FieldOfType(router, "sync.Mutex", func(t types.Type) bool { return isNamed(t, "sync", "Mutex") })
-	treeField := w.FieldOfType(router, "atomic.Pointer", func(t types.Type) bool { return isNamed(t, "sync/atomic", "Pointer") })
-	_ = treeField
+	muField := newProto(w).Mu
 
 	cg := w.CHA()
 	entries, binds, names := readEntryPoints(w)
